@@ -8,10 +8,12 @@ import (
 	"os"
 	"runtime"
 	"runtime/debug"
+	"runtime/pprof"
 	"sort"
 	"strconv"
 	"strings"
 	"sync"
+	"time"
 
 	"github.com/woodsbury/decimal128"
 
@@ -48,6 +50,16 @@ type Ctx struct {
 
 	panicMu     sync.Mutex
 	shardPanics []string
+	onStall     func(reason string)
+}
+
+func stallLimit() time.Duration {
+	if s := os.Getenv("VERIF_STALL_S"); s != "" {
+		if n, err := strconv.Atoi(s); err == nil && n > 0 {
+			return time.Duration(n) * time.Second
+		}
+	}
+	return 300 * time.Second
 }
 
 // N picks a per-shard case count by tier.
@@ -80,6 +92,7 @@ func (c *Ctx) Parallel(phase string, def ref.Mode, fn func(sh *mon.Shard, r *gen
 		wg.Add(1)
 		go func() {
 			defer wg.Done()
+			defer sh.Done.Store(true)
 			defer func() {
 				// A panic here is inside the harness (library calls run under try): the shard's verdicts so far
 				// are kept, the rest of its workload is lost and the run cannot be called "held".
@@ -99,7 +112,38 @@ func (c *Ctx) Parallel(phase string, def ref.Mode, fn func(sh *mon.Shard, r *gen
 			fn(sh, r)
 		}()
 	}
-	wg.Wait()
+	// stall monitor: library calls take microseconds to milliseconds, so a shard whose evaluation counter does
+	// not move for the stall limit is stuck inside one call. Termination is C20's verdict (its own per-call
+	// watchdog is shorter); every other property ends the run without a verdict instead of waiting for the
+	// runner's wall-clock watchdog.
+	finished := make(chan struct{})
+	go func() { wg.Wait(); close(finished) }()
+	limit := stallLimit()
+	last := make([]int64, len(shards))
+	since := make([]time.Time, len(shards))
+	for i := range since {
+		since[i] = time.Now()
+	}
+	tick := time.NewTicker(2 * time.Second)
+	defer tick.Stop()
+wait:
+	for {
+		select {
+		case <-finished:
+			break wait
+		case now := <-tick.C:
+			for i, sh := range shards {
+				if sh.Done.Load() {
+					continue
+				}
+				if p := sh.Progress.Load(); p != last[i] {
+					last[i], since[i] = p, now
+				} else if now.Sub(since[i]) > limit && c.onStall != nil {
+					c.onStall(fmt.Sprintf("phase %s shard %d made no progress for %.0f s after %d evaluations (a library call does not return, or returns extremely slowly)", phase, i, now.Sub(since[i]).Seconds(), p))
+				}
+			}
+		}
+	}
 	for _, sh := range shards {
 		c.Col.Merge(sh)
 	}
@@ -218,6 +262,13 @@ func Main() int {
 	col.Res.Assumptions = p.Assume
 	col.Res.CoverFuncs = p.Cover
 	ctx := &Ctx{Prop: prop, Tier: tier, Seed: seed, Scale: scale, Shards: shards, Col: col, Build: col.Res.Build}
+	ctx.onStall = func(reason string) {
+		col.Res.Stalled = reason
+		col.Res.Write(out)
+		fmt.Fprintln(os.Stderr, "STALL:", reason)
+		pprof.Lookup("goroutine").WriteTo(os.Stderr, 1)
+		os.Exit(3)
+	}
 	if err := selfTest(); err != nil {
 		col.Res.Internal = err.Error()
 		col.Res.Write(out)
